@@ -118,6 +118,10 @@ pub trait World {
     fn probe_names() -> Vec<String>;
     fn cell_bits() -> usize;
     fn cell_rule() -> &'static str;
+    /// Number of cells that can occur at all, when known exactly (otherwise `cell_bits` is an upper bound).
+    fn cells_reachable() -> Option<u64> {
+        None
+    }
     fn nontrivial_rule() -> &'static str;
 
     /// Draw one history. Every choice comes from `rng`; swarm knobs are counted in `obs`.
